@@ -42,7 +42,7 @@ Proof.
   destruct m, cf, p as [|b|b]; cbn in Hp; subst; cbn; try reflexivity; exact Hs.
 Qed.
 
-Lemma close_handle_pos h s : s_pos (close_handle h s) = s_pos s /\ s_seekable (close_handle h s) = s_seekable s.
+Lemma close_handle_pos h s : s_pos (close_handle h s) = s_pos s /\ s_cap (close_handle h s) = s_cap s.
 Proof.
   destruct h as [m cf d p f r pe].
   destruct m, cf, p as [|b|b]; try destruct b; cbn; split; reflexivity.
@@ -88,6 +88,16 @@ Proof.
   - split; [repeat split; assumption | repeat split].
 Qed.
 
+Lemma load_pending_ok h s : h_ok s h ->
+  let r := load_pending h s in h_ok (snd (fst r)) (fst (fst r)) /\ same_own h (fst (fst r)).
+Proof.
+  intros (Hc & Hd & Hp). unfold load_pending.
+  destruct (query gen_reader_read_query (s_cap s)) as [[|]|];
+    [destruct (evlr_query (h_file h) (s_cap s)) as [[|]|]; [destruct (f_evlr_bad (h_file h))| |]
+    |destruct (f_evlr_bad (h_file h))|]; cbn;
+    (split; [repeat split; assumption | repeat split]).
+Qed.
+
 Lemma do_read_all_ok h s : h_ok s h ->
   let r := do_read_all h s in h_ok (snd (fst r)) (fst (fst r)) /\ same_own h (fst (fst r)).
 Proof.
@@ -98,8 +108,13 @@ Proof.
   destruct r1; try (cbn; split; [repeat split; assumption | repeat split; assumption]).
   destruct (h_pending_evlrs h1).
   - pose proof (ensure_ps_ok h1 Hp) as He.
-    destruct (ps_src_some (ensure_ps h1)); [destruct (f_evlr_bad (h_file h)); [|destruct (s_seekable s1)]|]; cbn;
-      (split; [repeat split; assumption | repeat split; assumption]).
+    destruct (ps_src_some (ensure_ps h1)).
+    + assert (H2 : h_ok s1 (set_ps h1 (ensure_ps h1))) by (repeat split; assumption).
+      pose proof (load_pending_ok _ _ H2) as (Hok & (Tm & Tc & Td & Tf)).
+      cbn zeta in Hok, Tm, Tc, Td, Tf. cbn zeta.
+      split; [exact Hok|]. cbn [set_ps h_mode h_closefd h_declared h_file] in Tm, Tc, Td, Tf.
+      repeat split; congruence.
+    + cbn. split; [repeat split; assumption | repeat split; assumption].
   - cbn. split; [repeat split; assumption | repeat split; assumption].
 Qed.
 
@@ -131,7 +146,7 @@ Proof.
       { intros x. split; [|exact I]. unfold add_obs. apply obs_ok_app; [exact Hl|]. intros _ _. cbn.
         rewrite (handle_exn_closed m cf x _ Ec). symmetry. exact Hdecl. }
       destruct (is_a m && negb (s_seekable (st_s t))); [apply Hfail|].
-      destruct (open_exn m o f re (s_seekable (st_s t))) as [x|]; [apply Hfail|].
+      destruct (open_exn m o f re (s_cap (st_s t))) as [x|]; [apply Hfail|].
       cbn. split; [exact Hl|]. split; [|split].
       * destruct (is_r m); [cbn; exact Ec | exact Ec].
       * cbn. rewrite gen_cf_id. symmetry. exact Hdecl.
@@ -176,7 +191,7 @@ Proof.
   rewrite gen_read_las_cf_id in *. specialize (Hopen eq_refl Hi).
   unfold do_open in *. rewrite Eh in *. rewrite gen_pre_assert_r in *. cbn [andb] in *.
   rewrite Ec in *. cbn [is_a andb] in *.
-  destruct (open_exn MR o f true (s_seekable (st_s t))) as [x|].
+  destruct (open_exn MR o f true (s_cap (st_s t))) as [x|].
   - cbn [fst st_h st_s] in *. split; [exact Hopen | split; [reflexivity | apply handle_exn_closed; exact Ec]].
   - cbn [fst st_h st_s is_r] in *.
     set (h0 := mkH MR _ _ _ _ _ _) in *. set (s0 := set_pos _ _) in *.
@@ -235,14 +250,14 @@ Proof.
   cbn [run fold_left]. apply IH. apply step_inv. exact Hi.
 Qed.
 
-Lemma init_at_inv sk p : inv (init_at sk p).
+Lemma init_at_inv c p : inv (init_at c p).
 Proof. split; [constructor | exact I]. Qed.
-Lemma init_inv sk : inv (init sk).
+Lemma init_inv c : inv (init c).
 Proof. apply init_at_inv. Qed.
 
 (* ---------------- the theorems ---------------- *)
-Theorem ownership_iff sk p evs : Forall obs_ok (st_log (run (init_at sk p) evs)).
-Proof. exact (proj1 (run_inv evs (init_at sk p) (init_at_inv sk p))). Qed.
+Theorem ownership_iff c p evs : Forall obs_ok (st_log (run (init_at c p) evs)).
+Proof. exact (proj1 (run_inv evs (init_at c p) (init_at_inv c p))). Qed.
 
 (* every observation that is not the w-mode seekability assertion satisfies the boolean reading as well *)
 Lemma obs_ok_b o : obs_ok o -> obs_okb o = true.
@@ -251,10 +266,10 @@ Proof.
     (destruct (o_was_open o); [cbn; rewrite H; [apply eqb_reflx | discriminate | reflexivity] | reflexivity]).
 Qed.
 
-Theorem ownership_iff_b sk p evs : forallb obs_okb (st_log (run (init_at sk p) evs)) = true.
+Theorem ownership_iff_b c p evs : forallb obs_okb (st_log (run (init_at c p) evs)) = true.
 Proof.
   apply forallb_forall. intros o Hin. apply obs_ok_b.
-  pose proof (ownership_iff sk p evs) as H. rewrite Forall_forall in H. exact (H o Hin).
+  pose proof (ownership_iff c p evs) as H. rewrite Forall_forall in H. exact (H o Hin).
 Qed.
 
 Theorem failed_open t m cf re f o x : st_h t = None -> s_closed (st_s t) = false ->
@@ -268,7 +283,7 @@ Proof.
   rewrite Hp.
   destruct (is_a m && negb (s_seekable (st_s t))).
   - cbn. intros _. split; [reflexivity | apply handle_exn_closed; exact Ec].
-  - destruct (open_exn m o f re (s_seekable (st_s t))) as [y|]; cbn; intros H; [|discriminate].
+  - destruct (open_exn m o f re (s_cap (st_s t))) as [y|]; cbn; intros H; [|discriminate].
     split; [reflexivity | apply handle_exn_closed; exact Ec].
 Qed.
 
@@ -276,7 +291,7 @@ Qed.
 Theorem open_outcome t m cf re f o : st_h t = None -> s_closed (st_s t) = false ->
   (gen_open_pre_assert_seekable m = true -> s_seekable (st_s t) = true) ->
   (is_a m = true -> s_seekable (st_s t) = true) ->
-  match open_exn m o f re (s_seekable (st_s t)) with
+  match open_exn m o f re (s_cap (st_s t)) with
   | Some x => snd (step t (EOpen m cf re f o)) = RRaised x
   | None => snd (step t (EOpen m cf re f o)) = RDone /\
             exists h, st_h (fst (step t (EOpen m cf re f o))) = Some h /\ h_mode h = m /\ h_closefd h = cf /\ h_ps h = PNone /\
@@ -288,17 +303,17 @@ Proof.
   { destruct (gen_open_pre_assert_seekable m); [rewrite Hpre by reflexivity; reflexivity | reflexivity]. }
   assert (Hq : is_a m && negb (s_seekable (st_s t)) = false).
   { destruct (is_a m); [rewrite Ha by reflexivity; reflexivity | reflexivity]. }
-  rewrite Hp, Hq. destruct (open_exn m o f re (s_seekable (st_s t))) as [x|]; cbn [fst snd]; [reflexivity|].
+  rewrite Hp, Hq. destruct (open_exn m o f re (s_cap (st_s t))) as [x|]; cbn [fst snd]; [reflexivity|].
   split; [reflexivity|]. eexists. split; [reflexivity|]. cbn [h_mode h_closefd h_ps st_s].
   rewrite gen_cf_id. repeat split. destruct (is_r m); [cbn; exact Ec | exact Ec].
 Qed.
 
-Theorem handle_gone sk p evs e h : is_end e = true -> st_h (run (init_at sk p) evs) = Some h ->
-  st_h (fst (step (run (init_at sk p) evs) e)) = None /\
-  s_closed (st_s (fst (step (run (init_at sk p) evs) e))) = h_declared h /\ h_closefd h = h_declared h.
+Theorem handle_gone c p evs e h : is_end e = true -> st_h (run (init_at c p) evs) = Some h ->
+  st_h (fst (step (run (init_at c p) evs) e)) = None /\
+  s_closed (st_s (fst (step (run (init_at c p) evs) e))) = h_declared h /\ h_closefd h = h_declared h.
 Proof.
-  intros He Eh. pose proof (run_inv evs (init_at sk p) (init_at_inv sk p)) as Hi.
-  set (t := run (init_at sk p) evs) in *.
+  intros He Eh. pose proof (run_inv evs (init_at c p) (init_at_inv c p)) as Hi.
+  set (t := run (init_at c p) evs) in *.
   assert (Hd : h_closefd h = h_declared h) by (destruct Hi as (_ & Hh); rewrite Eh in Hh; exact (proj1 (proj2 Hh))).
   destruct e; try discriminate He; cbn [step]; unfold on_handle; rewrite Eh; cbn [fst].
   - pose proof (end_handle_facts HBodyRaised true t h ltac:(discriminate) Hi Eh) as (_ & A & B). repeat split; assumption.
@@ -311,12 +326,12 @@ Theorem write_keeps_open t o :
   s_closed (st_s (fst (step t (ELasDataWrite o)))) = s_closed (st_s t) /\ st_h (fst (step t (ELasDataWrite o))) = st_h t.
 Proof. cbn [step]. apply lasdata_write_stream. Qed.
 
-Theorem read_las_closes sk p evs cf f o :
-  st_h (run (init_at sk p) evs) = None -> s_closed (st_s (run (init_at sk p) evs)) = false ->
-  st_h (fst (step (run (init_at sk p) evs) (EReadLas cf f o))) = None /\
-  s_closed (st_s (fst (step (run (init_at sk p) evs) (EReadLas cf f o)))) = cf.
+Theorem read_las_closes c p evs cf f o :
+  st_h (run (init_at c p) evs) = None -> s_closed (st_s (run (init_at c p) evs)) = false ->
+  st_h (fst (step (run (init_at c p) evs) (EReadLas cf f o))) = None /\
+  s_closed (st_s (fst (step (run (init_at c p) evs) (EReadLas cf f o)))) = cf.
 Proof.
-  intros Eh Ec. pose proof (run_inv evs (init_at sk p) (init_at_inv sk p)) as Hi.
+  intros Eh Ec. pose proof (run_inv evs (init_at c p) (init_at_inv c p)) as Hi.
   pose proof (read_las_facts cf f o _ Hi Eh Ec) as (_ & A & B). split; assumption.
 Qed.
 
@@ -342,17 +357,84 @@ Theorem open_position t cf re f o : st_h t = None -> s_closed (st_s t) = false -
   s_pos (st_s (fst (step t (EOpen MR cf re f o)))) = s_pos (st_s t) + f_offset f.
 Proof.
   intros Eh Ec Ho Hs. cbn [step]. unfold do_open. rewrite Eh, Ec, gen_pre_assert_r. cbn [andb orb is_a].
-  destruct (open_exn MR o f re (s_seekable (st_s t))) as [x|]; cbn [fst snd is_r st_s]; [discriminate|]. intros _.
+  destruct (open_exn MR o f re (s_cap (st_s t))) as [x|]; cbn [fst snd is_r st_s]; [discriminate|]. intros _.
   unfold set_pos. cbn [s_pos]. unfold header_read_pos. rewrite prefetch_pos by assumption.
-  destruct (gen_read_from_prefetch_then_evlrs && re && evlr_guard f (s_seekable (st_s t))); [apply evlrs_restore | reflexivity].
+  destruct (gen_read_from_prefetch_then_evlrs && re && evlr_guard f (s_cap (st_s t))); [apply evlrs_restore | reflexivity].
 Qed.
 
-(* a well-formed file whose EVLRs decode opens: the hypothesis above is not vacuous *)
+(* the stream can be asked whether it can seek: LasHeader.read_evlrs does not raise AttributeError *)
+Lemma evlr_raises_false f c : query gen_read_evlrs_query c <> None -> evlr_raises f c = false.
+Proof.
+  intros H. unfold evlr_raises, evlr_query.
+  destruct (_ && _); [|reflexivity]. destruct (query gen_read_evlrs_query c); [reflexivity | congruence].
+Qed.
+
+Lemma query_answers q c : c <> CapAbsent -> query q c <> None.
+Proof. destruct c; cbn; congruence. Qed.
+
+(* a well-formed file whose EVLRs decode opens on every stream that can be asked whether it can seek (with the
+   `getattr(.., lambda: False)` spelling of the question that is every stream: read_only_source_opens below): the
+   hypothesis of open_position is not vacuous *)
 Theorem open_ok_succeeds t cf re f : st_h t = None -> s_closed (st_s t) = false -> f_evlr_bad f = false ->
+  query gen_read_evlrs_query (s_cap (st_s t)) <> None ->
   snd (step t (EOpen MR cf re f OOk)) = RDone.
 Proof.
-  intros Eh Ec Hb. cbn [step]. unfold do_open. rewrite Eh, Ec, gen_pre_assert_r. cbn [andb orb is_a].
-  unfold open_exn. cbn [fail_exn]. rewrite Hb, andb_false_r. reflexivity.
+  intros Eh Ec Hb Hq. cbn [step]. unfold do_open. rewrite Eh, Ec, gen_pre_assert_r. cbn [andb orb is_a].
+  unfold open_exn. cbn [fail_exn]. rewrite Hb, andb_false_r, (evlr_raises_false f _ Hq). cbn [orb]. rewrite andb_false_r. reflexivity.
+Qed.
+
+Lemma asked_when_announced : gen_read_evlrs_query_asked true = true.
+Proof. reflexivity. Qed.
+
+Lemma evlr_query_announced f c : 4 <= f_minor f -> 0 < f_nevlrs f -> evlr_query f c = query gen_read_evlrs_query c.
+Proof.
+  intros H4 Hn. unfold evlr_query. replace (4 <=? f_minor f) with true by lia. replace (0 <? f_nevlrs f) with true by lia.
+  cbn [andb]. rewrite asked_when_announced. reflexivity.
+Qed.
+
+Lemma evlr_guard_announced f c : 4 <= f_minor f -> 0 < f_nevlrs f ->
+  evlr_guard f c = match query gen_read_evlrs_query c with Some b => b | None => false end.
+Proof.
+  intros H4 Hn. unfold evlr_guard. rewrite evlr_query_announced by assumption.
+  replace (4 <=? f_minor f) with true by lia. replace (0 <? f_nevlrs f) with true by lia. reflexivity.
+Qed.
+
+(* a source that offers only read() (no `seekable` attribute) handed to a reader, the file announcing EVLRs: with the
+   question spelt `getattr(stream, "seekable", lambda: False)()` it is a legal source that cannot seek - the open succeeds,
+   the stream stays open and the EVLRs are left for read(), which takes them where the stream stands after the last
+   point; with `stream.seekable()` loading the EVLRs at opening fails with AttributeError and the stream is closed iff closefd *)
+Theorem read_only_source t cf re f : st_h t = None -> s_closed (st_s t) = false -> s_cap (st_s t) = CapAbsent ->
+  f_evlr_bad f = false -> 4 <= f_minor f -> 0 < f_nevlrs f ->
+  let r := step t (EOpen MR cf re f OOk) in
+  match gen_read_evlrs_query with
+  | QGetattrFalse =>
+      snd r = RDone /\ s_closed (st_s (fst r)) = false /\
+      exists h, st_h (fst r) = Some h /\ h_closefd h = cf /\ h_pending_evlrs h = true /\
+        match gen_reader_read_query with
+        | QGetattrFalse => forall s, s_cap s = CapAbsent ->
+            do_read_all (set_ps (set_read h (f_count f)) (PReal true)) s =
+            (clear_pending (set_ps (set_read h (f_count f)) (PReal true)), set_pos s (rd (f_size f) (s_pos s) (f_evlr_bytes f)), RDone)
+        | QCall => forall s, s_cap s = CapAbsent -> snd (do_read_all (set_ps (set_read h (f_count f)) (PReal true)) s) = RRaised XOther
+        end
+  | QCall => if re then snd r = RRaised XOther /\ st_h (fst r) = None /\ s_closed (st_s (fst r)) = cf
+             else snd r = RDone /\ s_closed (st_s (fst r)) = false
+  end.
+Proof.
+  intros Eh Ec Ea Hb H4 Hn. cbn [step]. unfold do_open. rewrite Eh, Ec, gen_pre_assert_r. cbn [andb orb is_a].
+  unfold open_exn, evlr_raises, pending_evlrs. cbn [fail_exn is_r andb]. rewrite Ea, Hb.
+  rewrite evlr_query_announced, evlr_guard_announced by assumption.
+  replace (4 <=? f_minor f) with true by lia. replace (0 <? f_nevlrs f) with true by lia.
+  change gen_read_from_prefetch_then_evlrs with true. cbn [andb].
+  destruct gen_read_evlrs_query eqn:E; cbn [query andb orb negb]; rewrite ?andb_true_r, ?andb_false_r, ?orb_true_r.
+  - (* x.seekable() *)
+    destruct re; cbn [fst snd st_s st_h]; repeat split; try exact Ec. apply handle_exn_closed. exact Ec.
+  - (* getattr(x, "seekable", lambda: False)() *)
+    cbn [fst snd st_s st_h]. split; [reflexivity|]. split; [exact Ec|]. eexists. split; [reflexivity|].
+    cbn [h_closefd h_pending_evlrs]. split; [apply gen_cf_id|]. split; [reflexivity|].
+    destruct gen_reader_read_query eqn:E2; intros s Es;
+      unfold do_read_all, do_read_points; cbn [h_file set_ps set_read h_read]; unfold gen_read_points;
+      replace (f_count f - f_count f <=? 0) with true by lia; cbn [Z.ltb Z.compare Z.opp h_pending_evlrs set_read set_ps ensure_ps h_ps ps_src_some];
+      unfold load_pending; rewrite E2, Es; cbn [query h_file set_ps set_read]; try rewrite Hb; reflexivity.
 Qed.
 
 (* the first read after opening takes its records from where opening left the stream: no seek is needed *)
@@ -421,26 +503,36 @@ Proof.
 Qed.
 
 (* EVLRs that cannot be decoded: the failure comes where they are loaded - at opening when that was asked for and the
-   stream can seek to them (then the stream is closed iff closefd, as for any failed open), in read() otherwise *)
+   stream can seek to them (then the stream is closed iff closefd, as for any failed open), in read() otherwise (on any
+   stream the reader may stand on by then) *)
 Theorem bad_evlrs_fail_where_loaded t cf re f : st_h t = None -> s_closed (st_s t) = false ->
   f_evlr_bad f = true -> 4 <= f_minor f -> 0 < f_nevlrs f ->
+  query gen_read_evlrs_query (s_cap (st_s t)) <> None ->
   let r := step t (EOpen MR cf re f OOk) in
   if re && s_seekable (st_s t)
   then snd r = RRaised XOther /\ st_h (fst r) = None /\ s_closed (st_s (fst r)) = cf
   else snd r = RDone /\ exists h, st_h (fst r) = Some h /\ h_pending_evlrs h = true /\
        forall s, snd (do_read_all (set_ps (set_read h (f_count f)) (PReal true)) s) = RRaised XOther.
 Proof.
-  intros Eh Ec Hb H4 Hn. cbn [step]. unfold do_open. rewrite Eh, Ec, gen_pre_assert_r. cbn [andb orb is_a].
-  unfold open_exn. cbn [fail_exn is_r andb]. unfold evlr_guard, pending_evlrs. rewrite Hb.
+  intros Eh Ec Hb H4 Hn Hq. cbn [step]. unfold do_open. rewrite Eh, Ec, gen_pre_assert_r. cbn [andb orb is_a].
+  unfold open_exn, pending_evlrs. cbn [fail_exn is_r andb]. rewrite (evlr_raises_false f _ Hq). cbn [orb].
+  rewrite !(evlr_guard_announced f _ H4 Hn), Hb.
   replace (4 <=? f_minor f) with true by lia. replace (0 <? f_nevlrs f) with true by lia.
   change gen_read_from_prefetch_then_evlrs with true. cbn [andb]. rewrite !andb_true_r.
+  assert (Hans : match query gen_read_evlrs_query (s_cap (st_s t)) with Some b => b | None => false end = s_seekable (st_s t)).
+  { unfold s_seekable. revert Hq. destruct (s_cap (st_s t)); [reflexivity | reflexivity |].
+    destruct gen_read_evlrs_query; cbn [query cap_seekable]; [congruence | reflexivity]. }
+  rewrite !Hans.
   destruct (re && s_seekable (st_s t)) eqn:E.
   - cbn [fst snd st_h st_s]. split; [reflexivity|]. split; [reflexivity|]. apply handle_exn_closed. exact Ec.
   - cbn [fst snd st_h]. split; [reflexivity|]. eexists. split; [reflexivity|]. cbn [h_pending_evlrs].
     split; [destruct re, (s_seekable (st_s t)); cbn in *; congruence|].
     intros s. unfold do_read_all, do_read_points. cbn [h_file set_ps set_read h_read]. unfold gen_read_points.
     replace (f_count f - f_count f <=? 0) with true by lia. cbn.
-    destruct re, (s_seekable (st_s t)); cbn in *; try congruence; rewrite Hb; reflexivity.
+    assert (Hp : negb re || negb (s_seekable (st_s t)) = true) by (destruct re, (s_seekable (st_s t)); cbn in *; congruence).
+    rewrite Hp. cbn. unfold load_pending. cbn [h_file set_ps set_read]. rewrite (evlr_query_announced f _ H4 Hn), Hb.
+    destruct (s_cap s); cbn [query]; try reflexivity;
+      destruct gen_reader_read_query; try reflexivity; destruct gen_read_evlrs_query; reflexivity.
 Qed.
 
 (* what the one excluded exit does: the w-mode seekability assertion leaves the stream as it was *)
